@@ -11,6 +11,7 @@ def build(reg):
     runs.register(reg, "C33")
     return dict(
         targets=[f"{config.CFG}:MPSConfig.__init__", f"{config.CFG}:MPSConfig.__init__[autosave_dt=inf]",
+                 f"{config.CFG}:MPSConfig.__init__[backend_options dict]",
                  f"{config.CFG}:MPSConfig.check_permutable_observables",
                  f"{config.IMPL}:DMRGBackendImpl.__init__", f"{config.IMPL}:create_impl",
                  "emu_mps.mps_backend:MPSBackend.run"],
